@@ -7,6 +7,8 @@ pub mod c26;
 pub mod c27;
 pub mod c28;
 pub mod c29;
+pub mod c39;
+pub mod c40;
 pub mod c41;
 pub mod kes;
 pub mod c42;
@@ -30,6 +32,8 @@ pub fn lookup(id: &str) -> Option<CheckDef> {
         "C27" => c27::def(),
         "C28" => c28::def(),
         "C29" => c29::def(),
+        "C39" => c39::def(),
+        "C40" => c40::def(),
         "C41" => c41::def(),
         "C42" => c42::def(),
         "C43" => c43::def(),
@@ -37,4 +41,4 @@ pub fn lookup(id: &str) -> Option<CheckDef> {
     })
 }
 
-pub const ALL: &[&str] = &["C09", "C12", "C13", "C20", "C21", "C22", "C23", "C24", "C25", "C26", "C27", "C28", "C29", "C41", "C42", "C43"];
+pub const ALL: &[&str] = &["C09", "C12", "C13", "C20", "C21", "C22", "C23", "C24", "C25", "C26", "C27", "C28", "C29", "C39", "C40", "C41", "C42", "C43"];
